@@ -18,6 +18,7 @@ func init() {
 			"PF-ALLOC: sizes of make([]T, ..) derive from len/cap of existing data, never from a query parameter",
 			"PF-NILCLOSE; ERR-PROP of the open chain (a swallowed failure leaves a nil reader that is dereferenced later)",
 			"the distinct rule (the stage works on allocated state)",
+			"PF-NIL pcommon.Map methods on Attrs.AsMap() results only under m != pcommon.Map{}",
 		},
 		NotDecided: []string{
 			"termination of loops (lexer scanners, IPLineFilter, stepper – the last relies on C16's positivity for CLI callers)",
@@ -45,6 +46,7 @@ func init() {
 			ruleErrChainC14(r) // a failure that is swallowed leaves a nil reader behind that the merge dereferences
 			rulePFDeferNil(r, []string{enginePkg, metricPkg, dockerlogPkg, cmdPkg})
 			ruleDistinct(r) // the stage works on its own, allocated state
+			ruleAttrMapZeroGuard(r)
 		},
 	})
 }
